@@ -198,40 +198,58 @@ type Top struct {
 	Binding bool
 	Typed   *View
 	VC      *verifiable.W3CCredential
+	IsType  bool  // this proof's type is the requested one
+	All     []Top // every proof of the credential, in order (set on the selected entry only)
 }
 
 // Project decodes credential JSON and re-does, with the library's own decoders, the
-// steps of VerifyProof that precede the proof-specific verifier.
+// steps of VerifyProof that precede the proof-specific verifier - for EVERY proof of the
+// credential (Top.All, in order); the returned Top is the entry the property speaks about:
+// the first proof of the requested type.
 func Project(credJSON []byte, bjj bool) Top {
-	var t Top
 	var vc verifiable.W3CCredential
+	if err := json.Unmarshal(credJSON, &vc); err != nil {
+		// the model represents an undecodable credential as an undecodable typed proof
+		t := Top{Found: true, ClaimOK: true, Binding: true, IsType: true}
+		t.All = []Top{t}
+		return t
+	}
+	pt := verifiable.Iden3SparseMerkleTreeProofType
+	if bjj {
+		pt = verifiable.BJJSignatureProofType
+	}
+	var all []Top
+	for i, p := range vc.Proof {
+		if p.ProofType() != pt {
+			all = append(all, Top{ParseOK: true})
+			continue
+		}
+		all = append(all, projectProof(credJSON, &vc, p, i, bjj))
+	}
+	sel := Top{ParseOK: true, VC: &vc}
+	for _, e := range all {
+		if e.IsType {
+			sel = e
+			break
+		}
+	}
+	sel.All = all
+	return sel
+}
+
+// projectProof: steps 2-4 of VerifyProof for the proof at position idx.
+func projectProof(credJSON []byte, vc *verifiable.W3CCredential, cp verifiable.CredentialProof, idx int, bjj bool) (t Top) {
+	t = Top{ParseOK: true, VC: vc, IsType: true, Found: true}
 	defer func() {
 		if r := recover(); r != nil {
 			// a decoder panicked: the implementation run will show the same; leave Typed nil
 			t.Typed = nil
 		}
 	}()
-	if err := json.Unmarshal(credJSON, &vc); err != nil {
-		// the model represents an undecodable credential as an undecodable typed proof
-		return Top{Found: true, ClaimOK: true, Binding: true}
-	}
-	t.ParseOK = true
-	t.VC = &vc
 	pt := verifiable.Iden3SparseMerkleTreeProofType
 	if bjj {
 		pt = verifiable.BJJSignatureProofType
 	}
-	var cp verifiable.CredentialProof
-	for _, p := range vc.Proof {
-		if p.ProofType() == pt {
-			cp = p
-			break
-		}
-	}
-	if cp == nil {
-		return t
-	}
-	t.Found = true
 	cc, err := cp.GetCoreClaim()
 	if err != nil {
 		return t
@@ -267,7 +285,7 @@ func Project(credJSON []byte, bjj bool) Top {
 		}
 		v.MTP = rproofOf(p.IssuerData.MTP)
 		v.Status = statusViewOf(p.IssuerData.CredentialStatus)
-		v.Status.Raw, v.Status.RawType = rawNonceLiteral(credJSON, string(pt))
+		v.Status.Raw, v.Status.RawType = rawNonceLiteral(credJSON, string(pt), idx)
 	} else {
 		var p verifiable.Iden3SparseMerkleTreeProof
 		if err := json.Unmarshal(raw, &p); err != nil {
@@ -291,7 +309,7 @@ func Project(credJSON []byte, bjj bool) Top {
 // rawNonceLiteral finds issuerData.credentialStatus of the first proof of the given type in
 // the credential text and returns its revocationNonce when the status is an object with only
 // a string id, a string type and a non-negative integer literal as nonce.
-func rawNonceLiteral(credJSON []byte, proofType string) (*big.Int, string) {
+func rawNonceLiteral(credJSON []byte, proofType string, idx int) (*big.Int, string) {
 	dec := json.NewDecoder(strings.NewReader(string(credJSON)))
 	dec.UseNumber()
 	var doc map[string]any
@@ -305,9 +323,9 @@ func rawNonceLiteral(credJSON []byte, proofType string) (*big.Int, string) {
 	case map[string]any:
 		proofs = []any{p}
 	}
-	for _, pi := range proofs {
+	for i, pi := range proofs {
 		po, ok := pi.(map[string]any)
-		if !ok || po["type"] != proofType {
+		if i != idx || !ok || po["type"] != proofType {
 			continue
 		}
 		idata, _ := po["issuerData"].(map[string]any)
@@ -791,7 +809,7 @@ func optOf(name string, present bool) string {
 	return "(Some " + name + ")"
 }
 
-func (s *Shard) envCoq(v *View, env Env) string {
+func (s *Shard) envCoq(env Env) string {
 	var ds []string
 	for _, a := range env.DID {
 		h := hexfOf(&a.State)
@@ -829,51 +847,59 @@ func (s *Shard) envCoq(v *View, env Env) string {
 	return s.def("e", fmt.Sprintf("mkenv [%s] [%s]", strings.Join(ds, ";"), strings.Join(rs, ";")))
 }
 
-// Add renders one case. obs: 0 accept, 1 reject, 2 panic.
+// Add renders one case (the credential's whole proof list). obs: 0 accept, 1 reject, 2 panic.
 func (s *Shard) Add(id int, t Top, env Env, obs int) {
-	b := "None"
-	envName := s.def("e", "mkenv [] []")
-	if t.Typed != nil {
-		v := t.Typed
-		envName = s.envCoq(v, env)
-		cl := s.def("cl", v.Claim.coq())
-		mtp := "None"
-		if v.MTP != nil {
-			mtp = optOf(s.def("p", v.MTP.coq()), true)
+	envName := s.envCoq(env)
+	var entries []string
+	for _, e := range t.All {
+		if !e.IsType {
+			entries = append(entries, "pe false true true None")
+			continue
 		}
-		st := s.def("st", v.State.coq(s.F))
-		did := "None"
-		if v.DID != nil {
-			did = fmt.Sprintf("(Some %d)", s.Rec.DIDNum(v.DIDStr))
-		}
-		if s.BJJ {
-			auth := "None"
-			if v.Auth != nil {
-				auth = optOf(s.def("cl", v.Auth.coq()), true)
-			}
-			sig := optLimbs(v.Sig)
-			status := "SOther"
-			switch {
-			case v.Status.Raw != nil:
-				s.Rec.JSONRoundTrip(v.Status.Raw)
-				status = fmt.Sprintf("(SRaw %s %s)", s.F.Str(v.Status.RawType), coqgen.Limbs(v.Status.Raw))
-			case v.Status.Kind == 1:
-				status = "(SObj None)"
-			case v.Status.Kind == 2:
-				status = fmt.Sprintf("(SObj (Some (%s, %s)))", s.F.Str(v.Status.Type),
-					coqgen.Limbs(new(big.Int).SetUint64(v.Status.Nonce)))
-			}
-			b = optOf(s.def("b", fmt.Sprintf("mkbjj_ T_ %s %s %s %s %s %s %s", cl, auth, sig, mtp, st, did, status)), true)
-		} else {
-			b = optOf(s.def("b", fmt.Sprintf("mksmt_ %s %s %s %s", cl, mtp, st, did)), true)
-		}
+		entries = append(entries, fmt.Sprintf("pe true %s %s %s", coqgen.Bool(e.ClaimOK), coqgen.Bool(e.Binding), s.bundleCoq(e.Typed)))
 	}
 	ctor := "c8"
 	if s.BJJ {
 		ctor = "c7"
 	}
-	s.cases = append(s.cases, fmt.Sprintf("%s %d %s %s %s %s %s %d", ctor, id, coqgen.Bool(t.Found),
-		coqgen.Bool(t.ClaimOK), coqgen.Bool(t.Binding), b, envName, obs))
+	s.cases = append(s.cases, fmt.Sprintf("%s %d [%s] %s %d", ctor, id, strings.Join(entries, "; "), envName, obs))
+}
+
+// bundleCoq renders an option bundle.
+func (s *Shard) bundleCoq(v *View) string {
+	if v == nil {
+		return "None"
+	}
+	cl := s.def("cl", v.Claim.coq())
+	mtp := "None"
+	if v.MTP != nil {
+		mtp = optOf(s.def("p", v.MTP.coq()), true)
+	}
+	st := s.def("st", v.State.coq(s.F))
+	did := "None"
+	if v.DID != nil {
+		did = fmt.Sprintf("(Some %d)", s.Rec.DIDNum(v.DIDStr))
+	}
+	if !s.BJJ {
+		return optOf(s.def("b", fmt.Sprintf("mksmt_ %s %s %s %s", cl, mtp, st, did)), true)
+	}
+	auth := "None"
+	if v.Auth != nil {
+		auth = optOf(s.def("cl", v.Auth.coq()), true)
+	}
+	sig := optLimbs(v.Sig)
+	status := "SOther"
+	switch {
+	case v.Status.Raw != nil:
+		s.Rec.JSONRoundTrip(v.Status.Raw)
+		status = fmt.Sprintf("(SRaw %s %s)", s.F.Str(v.Status.RawType), coqgen.Limbs(v.Status.Raw))
+	case v.Status.Kind == 1:
+		status = "(SObj None)"
+	case v.Status.Kind == 2:
+		status = fmt.Sprintf("(SObj (Some (%s, %s)))", s.F.Str(v.Status.Type),
+			coqgen.Limbs(new(big.Int).SetUint64(v.Status.Nonce)))
+	}
+	return optOf(s.def("b", fmt.Sprintf("mkbjj_ T_ %s %s %s %s %s %s %s", cl, auth, sig, mtp, st, did, status)), true)
 }
 
 func sortedKeys[V any](m map[string]V) []string {
